@@ -176,6 +176,50 @@ def oracle(prop, run):
                 if ft and ft["start"] is not None and ft["start"] < int(r[0]):
                     yield ("C03 start-deferred-before-a-simultaneous-finish-was-handled", {"deferred": pending_at[int(r[0])][0], "finish": r})
                     break
+        # "starts exactly then whenever ... the chosen pool can hold it": a start is deferred with WORKER_NOT_READY
+        # although the pool certainly can hold the chosen strategy (it demands nothing, or it is a batch that is
+        # already resident on a worker of that pool and is not full)
+        last_dec = {}
+        di = 0
+        resident = {}   # (pool, worker) -> {batch id: set(tasks)}
+        events = sorted(
+            [(int(r[0]), 1, ("row", r)) for r in rows if len(r) > 5 and r[1] == "WORKER_NOT_READY"]
+            + [(e["now"], 0, ("mon", e)) for e in mon if e["ev"] in ("place", "remove") and e.get("now") is not None],
+            key=lambda x: (x[0], x[1]),
+        )
+        dec_at = []
+        srows = [int(r[0]) for r in rows if r[1] == "SCHEDULER_FINISHED"]
+        for tm, d in zip(srows, case["decisions"]):
+            dec_at.append((tm, d))
+        for tm, _k, (kind, x) in events:
+            while di < len(dec_at) and dec_at[di][0] <= tm:
+                for p_ in dec_at[di][1]["placements"]:
+                    if p_["kind"] == "place" and p_.get("strat") is not None:
+                        last_dec[f"g{p_['g']}.t{p_['t']}"] = p_
+                di += 1
+            if kind == "mon":
+                key = tuple(x["w"])
+                if x["ev"] == "place" and x.get("batch"):
+                    resident.setdefault(key, {}).setdefault(x["batch"], set()).add(x["t"])
+                elif x["ev"] == "remove":
+                    for b in resident.get(key, {}).values():
+                        b.discard(x["t"])
+            else:
+                lab, pool = x[4], x[5]
+                p_ = last_dec.get(lab)
+                if not p_ or p_.get("pool") is None or f"p{p_['pool']}" != pool:
+                    continue
+                if any(tm2 == tm and any(q_["kind"] == "place" and f"g{q_.get('g')}.t{q_.get('t')}" == lab for q_ in d2["placements"]) for tm2, d2 in dec_at):
+                    continue   # re-decided at this very instant: which decision the deferred event carried is ambiguous
+                st = p_["strat"]
+                if sum(q for _n, _i, q in st["req"]) == 0 and not st["batch"]:
+                    yield ("C03 start-deferred-although-the-strategy-demands-nothing", {"row": x, "strategy": st})
+                    break
+                if st["batch"] and st.get("bid"):
+                    for (pi, wi), bs in resident.items():
+                        if pi == p_["pool"] and st["bid"] in bs and 0 < len(bs[st["bid"]]) < st["bs"] and (p_.get("worker") in (None, wi)):
+                            yield ("C03 start-deferred-although-its-batch-is-resident-and-not-full", {"row": x, "worker": [pi, wi], "members": sorted(bs[st["bid"]])})
+                            break
         for t, evs in starts.items():
             e = evs[0]
             rts = placed_rt.get(t, [])
